@@ -71,8 +71,12 @@ ASSUMPTIONS = [
     "a tell rejected with ValueError (any malformed argument) must have called neither archive nor emitter and must "
     "leave both archives' contents unchanged. Readings kept: archive and result archive of a case differ only in "
     "dtype, so the accepted reading 'a differently configured result_archive may reject rows the archive has already "
-    "accepted' is never exercised; non-finite objective / measures faults in add_mode='single' are placed in row 0 "
-    "(see SINGLE_MODE_LATE_ROW_FAULTS: later rows are inserted one by one before the faulty row is reached)",
+    "accepted' is never exercised; an archive add that changed nothing before the rejection is harmless (one "
+    "archive may notice a mis-shaped extra field that the other, inserting no row, did not look at)",
+    "accepted reading, not a violation: in add_mode='single' a tell whose row i > 0 is non-finite is rejected when "
+    "add_single reaches that row, after rows 0..i-1 were inserted; C11 quantifies the scheduler's atomicity over "
+    "batch mode only. The non-finite objective / measures faults of single-mode cases are therefore placed in row 0 "
+    "(SINGLE_MODE_LATE_ROW_FAULTS = False)",
     "after a tell / tell_dqd rejected with ValueError (wrong-length array) the property does not say whether the "
     "pending ask is consumed (the code records the call before validating: the next legal call is ask / ask_dqd) or "
     "kept (the tell may be retried); the oracle accepts both readings and tracks the set of protocol states they "
@@ -97,10 +101,10 @@ TRUSTED_EXTRA = [
 SOLDIM = 3
 MDIM = 2
 STATS = {}
-# In add_mode="single" a NaN / inf objective or measure in row i > 0 is only noticed when add_single reaches row i:
-# rows 0..i-1 are then already in the archive(s) (reported to the lead, undecided: defect or reading).  While this is
-# False the non-finite objective / measures faults of single-mode cases are placed in row 0; True makes the check
-# report the partial insertion.
+# Accepted reading (DESIGN 7.3): in add_mode="single" a tell whose row i > 0 is non-finite is rejected when add_single
+# reaches that row, after rows 0..i-1 were inserted; C11 quantifies the scheduler's atomicity over batch mode only.
+# While this is False the non-finite objective / measures faults of single-mode cases are placed in row 0 (True
+# would make the check report the row-by-row insertion).
 SINGLE_MODE_LATE_ROW_FAULTS = False
 
 
